@@ -77,6 +77,9 @@ def _warn_spec(case, ns, unit_scale=1):
     var, lo, hi = case["warn"]
     x = ns[var]
     lo, hi = Fraction(lo), Fraction(hi)
+    if case.get("warn_exact"):
+        # the end points are given as the exact values the code computes with (e.g. Fraction(273.15) + 40): the documented range is CLOSED
+        return (x < lo) | (x > hi), (x >= lo) & (x <= hi)
     must = (x < lo * (1 - BAND)) | (x > hi * (1 + BAND))
     mustnot = (x >= lo * (1 + BAND)) & (x <= hi * (1 - BAND))
     return must, mustnot
@@ -224,7 +227,12 @@ def replay(modname, casename, point, kinds):
         var, lo, hi = case["warn"]
         x = ns[var]
         lo, hi = float(Fraction(lo)), float(Fraction(hi))
-        if x < lo * (1 - 1e-9) or x > hi * (1 + 1e-9):
+        if case.get("warn_exact"):
+            if (x < lo or x > hi) and not pw:
+                bad.append("no range warning for %s=%r outside [%r, %r]" % (var, x, lo, hi))
+            if lo <= x <= hi and pw:
+                bad.append("spurious warning %r for %s=%r inside the closed range [%r, %r]" % (pw, var, x, lo, hi))
+        elif x < lo * (1 - 1e-9) or x > hi * (1 + 1e-9):
             if not pw:
                 bad.append("no range warning for %s=%r outside [%r, %r]" % (var, x, lo, hi))
         elif lo * (1 + 1e-9) <= x <= hi * (1 - 1e-9) and pw:
